@@ -206,6 +206,71 @@ direction_increment = Contract(
     options={"result": lambda mk, a: mk.array("dtheta", mk.st.deref(a.directions_radians).shape)},
 )
 
+# ---- lemmas over the spec function of the increments (mirroring C02's bin-width lemmas)
+class _GridView:
+    def __init__(self, fn):
+        self._fn = fn
+        self._a = None      # marks a symbolic grid for increment_spec
+
+    def __getitem__(self, j):
+        return self._fn(T.to_z3(j))
+
+
+def _lemma_uniform_increments():
+    """on the uniform grid g_j = (theta_0 + j 360/N) pi/180 with N >= 3 every midpoint increment is (360/N) pi/180"""
+    import z3
+    N, j = z3.Ints("N_l j_l")
+    th0 = z3.Real("theta0_l")
+    g = _GridView(lambda k: (th0 + z3.ToReal(k) * (z3.RealVal(360) / z3.ToReal(N))) * (T.PI / 180))
+    return [N >= 3, j >= 0, j < N], eq(increment_spec(g, N, j), step_rad(N))
+
+
+def _lemma_step_is_two_pi_over_n():
+    import z3
+    N = z3.Int("N_l")
+    return [N >= 1], eq(step_rad(N), 2 * T.PI / z3.ToReal(N))
+
+
+def _asc_hyps(d, N):
+    import z3
+    j = z3.Int("gj")
+    return [N >= 3, z3.ForAll([j], z3.Implies(z3.And(0 <= j, j < N - 1), z3.And(d(j + 1) - d(j) > 0, d(j + 1) - d(j) < T.PI))),
+            d(N - 1) - d(0) < 2 * T.PI, d(N - 1) - d(0) > T.PI]
+
+
+def _asc_setup():
+    import z3
+    d = z3.Function("d_l", T.IntS, T.RealS)
+    N, n = z3.Ints("N_l n_l")
+    g = _GridView(lambda k: d(k))
+    S_ = SumOf(lambda j: increment_spec(g, N, j))
+    closed = lambda m: (d(m) + d(m - 1) - d(0) - d(N - 1) + 2 * T.PI) / 2
+    return d, N, n, (lambda m: S_(0, m)), closed
+
+
+def _lemma_increments_prefix_base():
+    d, N, n, pref, closed = _asc_setup()
+    return _asc_hyps(d, N), And(eq(pref(0), 0), eq(pref(1), closed(1)))      # both applications, so that the empty-sum and split-last schemas relate them
+
+
+def _lemma_increments_prefix_step():
+    """induction step of  sum_{j<n} increment_j = (d_n + d_{n-1} - d_0 - d_{N-1} + 2 pi) / 2  for 1 <= n <= N-1"""
+    d, N, n, pref, closed = _asc_setup()
+    return _asc_hyps(d, N) + [n >= 1, n + 1 <= N - 1, pref(n) == closed(n)], eq(pref(n + 1), closed(n + 1))
+
+
+def _lemma_increments_total():
+    d, N, n, pref, closed = _asc_setup()
+    return _asc_hyps(d, N) + [pref(N - 1) == closed(N - 1)], eq(pref(N), 2 * T.PI)
+
+
+LEMMAS = [Lemma("direction_increment.uniform_grid_all_increments_equal_the_step", _lemma_uniform_increments,
+                "uniform ascending grid of N >= 3 directions: every midpoint increment is (360/N) pi/180"),
+          Lemma("direction_increment.step_is_two_pi_over_n", _lemma_step_is_two_pi_over_n, "(360/N) (pi/180) = 2 pi / N"),
+          Lemma("direction_increment.prefix_sum_base", _lemma_increments_prefix_base, "n = 1"),
+          Lemma("direction_increment.prefix_sum_step", _lemma_increments_prefix_step, "induction step on an ascending grid with gaps < pi covering the circle"),
+          Lemma("direction_increment.increments_sum_to_two_pi", _lemma_increments_total, "with the prefix identity at n = N-1: the increments sum to 2 pi")]
+
 # ------------------------------------------------------------------ estimate.py: dispatch, reshape, degrees Jacobian
 # The point estimators are modelled as uninterpreted functions of the direction index and of ONE row's own four moments (for
 # the direction grid of the call): a row of the result can then only be shown to be "the estimator applied to that row's
@@ -410,11 +475,19 @@ EST_REQ = [("uniform_grid_of_at_least_three_directions", lambda a: And(_n(a.dire
            ("dims", lambda a: And(*[d >= 0 for d in a.a1.shape]))]
 
 
+import os as _os
+_ONLY = _os.environ.get("C05_ONLY")      # debugging / mutant runs: restrict the instance lists below to labels containing this text
+
+
+def _sel(insts):
+    return [x for x in insts if _ONLY is None or _ONLY in x[0]]
+
+
 def _wit_estimate():
     import numpy as np
     rng = np.random.default_rng(11)
     out = []
-    for lab, method, kw, rank in EST_INST:
+    for lab, method, kw, rank in _sel(EST_INST):
         N = int(rng.choice([8, 24, 36]))
         shape = {1: (4,), 2: (2, 3), 3: (2, 3, 2)}[rank]
         # Newton: realisable quadruples only.  On unrealisable ones the iteration does not converge and amplifies last-bit differences between
@@ -432,7 +505,7 @@ def _wit_estimate():
 
 estimate = Contract(
     E + "estimate.py::estimate_directional_distribution",
-    instances=[(lab, _p_estimate(m, kw, rank)) for lab, m, kw, rank in EST_INST + EST_BAD],
+    instances=[(lab, _p_estimate(m, kw, rank)) for lab, m, kw, rank in _sel(EST_INST + EST_BAD)],
     requires=EST_REQ,
     ensures=[("leading_shape_of_the_input_plus_directions", _post_shape, _GOOD),
              ("each_row_is_the_estimator_of_its_own_moments_per_degree", _post_rows, _GOOD),
@@ -564,7 +637,7 @@ def _wit_as2d():
     from ocean_science_utilities.wavespectra.spectrum import create_1d_spectrum
     rng = np.random.default_rng(3)
     out = []
-    for lab, method, sm in AS2D_INST:
+    for lab, method, sm in _sel(AS2D_INST):
         nf, npnt, N = 5, 2, int(rng.choice([12, 24, 36]))
         quads = np.array([von_mises_moments(rng) if (k % 2 == 0 or sm == "newton") else unrealisable_moments(rng) for k in range(nf * npnt)]).reshape(npnt, nf, 4)
         f = np.linspace(0.05, 0.5, nf)
@@ -587,7 +660,7 @@ def _native_as2d(kw, inst):
 
 as_2d = Contract(
     _S + "FrequencySpectrum.as_frequency_direction_spectrum",
-    instances=[(lab, _p_as2d(m, sm)) for lab, m, sm in AS2D_INST],
+    instances=[(lab, _p_as2d(m, sm)) for lab, m, sm in _sel(AS2D_INST)],
     requires=AS2D_REQ,
     ensures=[("density_is_the_estimated_distribution_of_the_own_moments_times_e", _dual(_as2d_density)),
              ("uniform_direction_grid_same_frequencies", _dual(_as2d_grid)),
@@ -621,7 +694,7 @@ def _round_trip_post(a, r):
 
 round_trip = Contract(
     _S + "FrequencySpectrum.as_frequency_direction_spectrum", label="round_trip_1d_2d_1d",
-    instances=[(lab, _p_as2d(m, sm)) for lab, m, sm in AS2D_INST],
+    instances=[(lab, _p_as2d(m, sm)) for lab, m, sm in _sel(AS2D_INST)],
     requires=AS2D_REQ,
     ensures=[("integrating_the_2d_spectrum_over_direction_returns_e", _round_trip_post)],
     call=_round_trip_call, callees={estimate.target: estimate_at_call_sites, _C01.direction_step.target: _C01.direction_step},
@@ -718,6 +791,16 @@ BOUNDED = [Bounded("estimators.compiled", _bounded_variants, "validity, returns-
                    "recorded input on which the compiled Newton variant is not batch independent in floating point (known finding C05-batch-float-nonconverging)")]
 
 CONTRACTS = [distribution, cholesky, solver, direction_increment, estimate, as_2d, round_trip]
-TRUSTED = []
+TRUSTED = ["ndarray.reshape in C order (same shape / leading unit axis added or removed / two leading axes merged or split) and numpy.prod of a shape tuple: pyvc/models/npshape.py",
+           "the point estimators at the call site of estimate_directional_distribution (mem, mem2) are functions of one row's own moments on the call's grid, each row >= 0 with "
+           "sum D * (360/N)(pi/180) = 1 for a1^2+b1^2 < 1 on a uniform grid of N >= 3 directions: verified for the MEM2 distribution constructor and every exit of the Newton solver, "
+           "ASSUMED for MEM (complex arithmetic) and scipy's root finder; the batch loops of mem.py / mem2.py themselves are NOT under contract (stores through views) - bounded check",
+           "xarray library contracts of pyvc/models/xr.py; direction_step of the 2D spectrum by its C01 contract",
+           "finite e(f) and moments in the 1D spectrum (NaN cells: bounded check only); leading dimensions collapsed into one (rank-1 and (n, 3, nf) inputs of estimate.py as extra instances)"]
 EXPLANATION = ("mem2_directional_distribution proved non-negative with unit integral for any finite multipliers; every return path of the MEM2 Newton solver proved to return such a distribution; "
-               "MEM, scipy, estimate.py normalisation, batch independence and no-raise on compiled code are a bounded check over seeded moment quadruples")
+               "get_direction_increment proved to be the mean of the wrapped forward and backward differences, = (360/N) pi/180 = 2 pi/N on a uniform grid of N >= 3 directions and summing to 2 pi on any "
+               "ascending grid covering the circle (induction lemmas); estimate_directional_distribution (12 method / solution_method / rank instances) proved to hand the estimator the caller's grid in radians "
+               "and every row its own moments, to return the leading shape + (N,), each row = estimator of that row's moments times pi/180, >= 0, sum D * 360/N = 1, unknown method / solution method raise; "
+               "FrequencySpectrum.as_frequency_direction_spectrum proved to return D[p,f,j] e[p,f] on the uniform N-grid with time / position / depth carried over, and the 2D spectrum's own e(f) of the result "
+               "proved equal to the source e(f) (round trip); the row loops of mem / mem2_newton / mem2_scipy_root_finder, MEM's formula and scipy are a bounded check on compiled code, which also records the "
+               "known floating-point finding C05-batch-float-nonconverging")
